@@ -11,6 +11,7 @@ exhaustive valid point.  Role A (TLC, spec/TilePrune.tla): pruning partial assig
 per-symbol goal is sound exactly under the monotonicity premise that C09 discharges.
 """
 from __future__ import annotations
+import os
 
 import json
 import random
@@ -52,6 +53,74 @@ def leaky_worlds(ck, n, start):
                 w["maykeep"][c] = list(w["tensors"])
         out.append(w)
     return out
+
+
+def large_part(ck):
+    """Templates in the partial-pruning regime (make_tile_shapes Pareto-prunes PARTIAL assignments once 1000 or more of
+    them are alive and symbols remain).  Executing every instance in TLC is out of reach at these sizes, so the oracle is
+    the property's own: every perfect assignment (TLC, MC_TileAssign) is evaluated with the template's recorded compiled
+    formulas (validated against execution by C07), valid ones (all usages <= 1, same float32 arithmetic as the mapper)
+    are reduced to their distinct objective vectors and Fronts decides pruned = exhaustive."""
+    import random
+    rng = random.Random(ck.seed * 53 + 8)
+    w = mc.gen_microspec(rng, 880, n_mem=3, kind="matmul", bounds=[128, 128, 128])
+    mems = sorted(w["level"], key=lambda c: w["level"][c])
+    for t in w["tensors"]:
+        w["wbits"][t] = 8
+        for c in w["bits"]:
+            w["bits"][c][t] = 8
+    for c, e in zip(mems, (64, 4, 1)):
+        for a in w["cost"][c]["energy"]:
+            w["cost"][c]["energy"][a] = e
+            w["cost"][c]["tput"][a] = [1, 0]
+        w["cost"][c]["leak"] = 0
+        if w["level"][c]:
+            w["keep"][c] = []
+            w["maykeep"][c] = list(w["tensors"])
+    w["size"][mems[1]], w["size"][mems[2]] = 65536, 2048
+    w["mac"]["energy"], w["mac"]["tput"] = 1, [1, 1]
+    mset = ("ENERGY",)
+    outs = tc.collect(ck, [w], mset, nproc=1, large={"min_assign": 1000, "max_total": 700000, "cols": ["energy"]})
+    o = outs[0]
+    if "exception" in o:
+        return
+    cases, meta = [], {}
+    for t in o["templates"]:
+        cands = [[mc.fr(x) for x in c] for c in t["cands"]]
+        ret = []
+        for row in t["table"]:
+            x = row.get("Total<SEP>energy")
+            if x is not None and not isinstance(x, str):
+                ret.append([mc.fr(x)])
+        if not cands:
+            continue
+        cid = "large/%s" % t["id"]
+        rc, rr = mc.rank_columns(cands, ret)
+        cases.append({"id": cid, "kind": "front", "cands": rc, "ret": rr})
+        meta[cid] = (t, cands, ret)
+        ck.count_nontrivial(cid)
+    ck.extra["large_templates_total"] = o.get("n_templates")
+    ck.extra["large_templates_in_regime"] = o.get("n_big")
+    ck.extra["large_templates_checked"] = len(cases)
+    ck.extra["large_assignments_enumerated"] = sum(t["n_assignments"] for t in o["templates"])
+    if not cases:
+        raise Machinery("large part: no template in the partial-pruning regime was recorded")
+    verdicts = mc.fronts_verdicts(ck, cases)
+    for cid, v in verdicts.items():
+        t, cands, ret = meta[cid]
+        ck.traces += 1
+        if v["uncovered"]:
+            k = v["uncovered"] - 1
+            ck.violation("C08/partial-pruning-regime/pruned-enumeration-loses-pareto-point/ENERGY",
+                         "128x128x128 matmul, GLB 65536 b, RF 2048 b, template %s (symbols %s, %d perfect assignments, %d valid): "
+                         "assignment %s has energy %s by the template's own compiled formulas and all usages <= 1; "
+                         "make_tile_shapes returned %d row(s) with energies %s"
+                         % (ln.short(t["nodes"]), t["syms"], t["n_assignments"], t["n_valid"], t["cand_assignment"][k],
+                            [str(x) for x in cands[k]], len(ret), sorted({str(r[0]) for r in ret})[:4]),
+                         {"world": w, "metrics": mset, "template_nodes": t["nodes"], "assignment": t["cand_assignment"][k],
+                          "kind": "large"})
+    ck.sample({"part": "large", "templates_checked": len(cases), "example_template": ln.short(o["templates"][0]["nodes"]),
+               "assignments": o["templates"][0]["n_assignments"], "valid": o["templates"][0]["n_valid"]})
 
 
 def run(ck: Check):
@@ -149,6 +218,9 @@ def run(ck: Check):
             ck.sample({"world": w["id"], "metrics": mset, "template": ln.short(t["nodes"]), "symbols": t["syms"],
                        "valid_assignments": len(cands), "assignments_enumerated_by_code": len(t["enumerated_by_code"]),
                        "returned_rows": len(ret), "exhaustive_front": sorted({tuple(str(x) for x in c) for c in cands})[:6]})
+
+    if thorough or os.environ.get("C08_LARGE"):
+        large_part(ck)
 
 
 def replay(path):
